@@ -140,6 +140,11 @@ structure Env where
   takeEscapes : List Str → Option String := fun _ => none
   /-- `MalformedIrcMsg` is *not* caught by `drivers.parseMsg` (false since fix 56dc7ac) -/
   malformedEscapes : Bool := false
+  /-- `irc.feedMsg(m)` makes the Irc call `driver.reconnect(wait=…)` (`ERROR :Closing link`,
+  an STS policy, a failed required SASL …): `some wait` -/
+  reconnects : List C05.Msg → C05.Msg → Option Bool := fun _ _ => none
+  /-- the `str()`s `Irc.reset()` queues (connection registration: CAP LS, NICK, USER …) -/
+  onReset : List Str := []
 
 /-- no exception escapes the Irc object's `feedMsg` / `takeMsg`, the encoding, or `parseMsg` -/
 def NoEscape (env : Env) : Prop :=
@@ -153,21 +158,25 @@ structure World where
   outbuffer : Bytes := []
   inbuffer : Bytes := []
   reconnectAt : Bool := false          -- `nextReconnectTime is not None`
+  reconnectDue : Bool := false         -- … and the clock has passed it
   sockClosed : Bool := false           -- `conn.close()` was called
   removed : Bool := false              -- name in `drivers._deadDrivers`: `drivers.run` never runs it again
   crashed : Option String := none      -- an exception escaped `run()` (`drivers.run` then removes the driver)
   -- Irc stub
   queue : List Str := []               -- `str(m)` of the messages `takeMsg` will hand out, in order
   ircZombie : Bool := false            -- `irc.zombie` (`Irc.die()` was called)
-  fed : List C05.Msg := []             -- every `irc.feedMsg(m)` so far
+  fed : List C05.Msg := []             -- every `irc.feedMsg(m)` since the last `Irc.reset()`
+  allFed : List C05.Msg := []          -- every `irc.feedMsg(m)` ever
   -- scripted socket
   sendScript : List SendRes := []      -- outcomes of the next `send()` calls ([] = accepts everything)
   recvScript : List RecvRes := []      -- outcomes of the next `recv()` calls ([] = nothing readable)
-  wire : Bytes := []                   -- bytes the socket accepted so far
-  -- ghost history (never read by the driver)
-  queued : List Str := []              -- everything ever queued
-  taken : List Str := []               -- everything `takeMsg` ever handed to the driver
-  rx : Bytes := []                     -- every byte `recv()` ever returned
+  wire : Bytes := []                   -- bytes the current socket accepted so far
+  epoch : Nat := 0                     -- number of re-connections so far
+  pastWires : List Bytes := []         -- what the earlier sockets accepted
+  -- ghost history of the current connection (never read by the driver)
+  queued : List Str := []              -- everything queued since the last `Irc.reset()`
+  taken : List Str := []               -- everything `takeMsg` handed to the driver on this connection
+  rx : Bytes := []                     -- every byte `recv()` returned on this connection
 deriving Repr
 
 def init : World := {}
@@ -177,8 +186,22 @@ def init : World := {}
 /-- `_handleSocketError(e)`; `none` = "the socket was closed". -/
 def handleSocketError (e : Option Nat) (w : World) : World :=
   if e ≠ some 11 ∨ w.eagains > 120 then
-    { w with connected := false, sockClosed := true, reconnectAt := true }
+    { w with connected := false, sockClosed := true, reconnectAt := true, reconnectDue := false }
   else { w with eagains := w.eagains + 1 }
+
+/-- `SocketDriver.reconnect(wait, reset=True)` since fix 9171ff7 (the connection attempt itself
+succeeds): both buffers are emptied, the old socket is closed, `Irc.reset()` clears the Irc's queues
+and queues the registration messages; with `wait` the new connection is only scheduled. -/
+def reconnect (env : Env) (wait : Bool) (w : World) : World :=
+  let q : List Str := if w.ircZombie then [] else env.onReset
+  let w1 : World :=
+    { w with reconnectAt := false, reconnectDue := false, inbuffer := [], outbuffer := [],
+             connected := false, sockClosed := (w.connected || w.sockClosed),
+             pastWires := (if w.connected then w.pastWires ++ [w.wire] else w.pastWires), wire := [],
+             queue := q, queued := q, taken := [], fed := [], rx := [] }
+  if wait then { w1 with reconnectAt := true }
+  else { w1 with connected := true, sockClosed := false, epoch := w.epoch + 1,
+                 sendScript := [], recvScript := [] }
 
 /-- `SocketDriver.die()` as far as this model sees it. -/
 def driverDie (w : World) : World := { w with zombie := true, removed := true, reconnectAt := false }
@@ -227,8 +250,8 @@ def sendIfMsgs (env : Env) (w : World) : World :=
 
 /-- `irc.feedMsg(msg)` on the stub: record it, queue the reaction (refused when zombie) -/
 def feedMsg (env : Env) (m : C05.Msg) (w : World) : World :=
-  let r := if w.ircZombie then [] else env.react w.fed m
-  { w with fed := w.fed ++ [m], queue := w.queue ++ r, queued := w.queued ++ r }
+  let r := if w.ircZombie then [] else env.react w.allFed m
+  { w with fed := w.fed ++ [m], allFed := w.allFed ++ [m], queue := w.queue ++ r, queued := w.queued ++ r }
 
 /-- the `for line in lines:` loop of `_read` -/
 def feedLines (env : Env) : List Bytes → World → World
@@ -239,9 +262,14 @@ def feedLines (env : Env) : List Bytes → World → World
     | .malformed =>
       if env.malformedEscapes then { w with crashed := some "MalformedIrcMsg" } else feedLines env ls w
     | .msg m =>
-      match env.feedEscapes w.fed m with
+      match env.feedEscapes w.allFed m with
       | some e => { feedMsg env m w with crashed := some e }
-      | none => feedLines env ls (feedMsg env m w)
+      | none =>
+        match env.reconnects w.allFed m with
+        -- `if self.conn is not conn or not self.connected: break`: the rest of the chunk came from
+        -- the server of the connection just left
+        | some wait => reconnect env wait (feedMsg env m w)
+        | none => feedLines env ls (feedMsg env m w)
     | .crash e => { w with crashed := some e }
 
 /-- the body of `_read` for a non-empty `new_data` -/
@@ -280,9 +308,14 @@ def select (env : Env) (w : World) : World :=
   if w.crashed.isSome then w
   else if !w.connected || w.zombie then w else selectSend env (selectRead env w)
 
-/-- `SocketDriver.run()` (no reconnect / write-check timers pending) -/
+/-- `if self.nextReconnectTime is not None and now > self.nextReconnectTime: self.reconnect()` -/
+def runTimer (env : Env) (w : World) : World :=
+  if w.reconnectAt && w.reconnectDue then reconnect env false w else w
+
+/-- `SocketDriver.run()` (no write-check timer pending) -/
 def run (env : Env) (w : World) : World :=
-  if !w.connected then w else select env (sendIfMsgs env w)
+  if !(runTimer env w).connected then runTimer env w
+  else select env (sendIfMsgs env (runTimer env w))
 
 /-- `except: log.exception(...); _deadDrivers.add(name)` -/
 def loopCatch (w : World) : World := if w.crashed.isSome then { w with removed := true } else w
@@ -298,6 +331,7 @@ inductive Op where
   | scriptSend (r : SendRes)    -- environment: outcome of a future `send()`
   | scriptRecv (r : RecvRes)    -- environment: outcome of a future `recv()`
   | ircDie                      -- `Irc.die()` (connected Irc: becomes a zombie)
+  | tick                        -- time passes: a scheduled reconnect becomes due
   | loop                        -- one pass of `drivers.run()`
 deriving DecidableEq, Repr
 
@@ -308,6 +342,7 @@ def step (env : Env) (w : World) : Op → World
   | .scriptSend r => { w with sendScript := w.sendScript ++ [r] }
   | .scriptRecv r => { w with recvScript := w.recvScript ++ [r] }
   | .ircDie => { w with ircZombie := true }
+  | .tick => { w with reconnectDue := true }
   | .loop => loop env w
 
 def runOps (env : Env) (w : World) (ops : List Op) : World := ops.foldl (step env) w
@@ -315,6 +350,17 @@ def runOps (env : Env) (w : World) (ops : List Op) : World := ops.foldl (step en
 /-- the stub Irc used by the correspondence run: answers `PING x` with `PONG :x` when `x` is a
 valid argument (`ircmsgs.pong` asserts `isValidArgument`; the stub swallows the assertion) -/
 def validArg (s : Str) : Bool := !(s.contains '\r' || s.contains '\n' || s.contains (Char.ofNat 0))
+
+/-- `Irc.doError` as the stub Irc of the correspondence run does it -/
+def errorReconnect (_ : List C05.Msg) (m : C05.Msg) : Option Bool :=
+  if m.command = "ERROR".toList then
+    match m.args with
+    | a :: _ =>
+      if startsWith "closing link".toList (asciiLower a) then some false
+      else if contains "too fast".toList a then some true
+      else none
+    | [] => none
+  else none
 
 def pingPong (_ : List C05.Msg) (m : C05.Msg) : List Str :=
   if m.command = "PING".toList then
